@@ -46,11 +46,25 @@ func (s *Session) ExecQuery(q string) error {
 		fmt.Printf("created database %s\n\r", stmt.Name)
 		return nil
 	case sql.UseStatement:
+		// re-selecting the current database keeps its open store: a second
+		// store over the same file would not see the first one's unflushed
+		// pages (database names are case-insensitive on disk)
+		if s.RelationService != nil && strings.EqualFold(stmt.DBName, s.CurDB) {
+			fmt.Printf("selected database %s\n\r", stmt.DBName)
+			return nil
+		}
 		// only switch once the database has been opened: a failed USE must
 		// leave the session as it was
 		rs, err := storage.OpenRelation(stmt.DBName, true)
 		if err != nil {
 			return err
+		}
+		// flush and stop the store of the database that is being left
+		if s.RelationService != nil {
+			if err := s.RelationService.Close(); err != nil {
+				rs.Close()
+				return err
+			}
 		}
 		s.CurDB = stmt.DBName
 		s.RelationService = rs
